@@ -35,6 +35,9 @@ pub enum Case {
     /// an interpreter given its element list directly (`from_transaction_and_script_bits`; empty `bits` = `from_transaction`),
     /// independent of the input's locking script, and optionally an unlocking script that is one opaque Coinbase element
     TxBits { bits: Vec<El>, lock: Vec<El>, coinbase_unlock: Option<Vec<El>>, sig: Bytes, key: Bytes, check: u8 },
+    /// `depth` conditionals nested through the element constructors (built iteratively, no parser involved), each
+    /// preceded by OP_1
+    ConstructedNest { depth: u32, via_else: bool },
     /// raw unlocking / locking script bytes on a one-input transaction (the libFuzzer `interptx` target)
     RawTx {
         #[serde(with = "crate::gen::hexser")]
@@ -257,7 +260,7 @@ impl Property for C16 {
     const ID: &'static str = "C16";
 
     fn rule() -> String {
-        "Opcode soup over every opcode value of the library's table (reserved, disabled, template pseudo-opcodes; via from_script_bits also bare structural and PUSHDATA opcodes) with adversarial operands (negative, 2^31 +/- 1, > 4 bytes, empty, negative zero), signature- and key-shaped pushes, initial stacks of depth 0..6, nested conditionals (random trees; straight nests to depth 150 / 300); random byte strings that parse; a Coinbase element; interpreters built from transaction inputs with/without locking script and value running CHECKSIG/CHECKMULTISIG on garbage signatures and off-curve keys, half of them behind or inside conditionals holding code separators; interpreters handed their element list directly (from_transaction_and_script_bits) with more elements than the input's locking script, and inputs whose unlocking script is one opaque Coinbase element that re-reads as several. Oracle: no panic (catch_unwind) and no process death (supervised child + journal); steps <= elements of the flattened tree + 1; stepping to the end and run() give the same Ok/Err and the same final stacks; after an Err the stacks equal the last returned state and further next() calls end the iteration (None) without changing them; a clone taken half-way finishes with the same outcome and stacks, and a copy that went through the interpreter's serde form half-way still steps to an end without panicking. Non-trivial = >= 3 executed steps or an error path reached; distinct by hash of the serialised case.".into()
+        "Opcode soup over every opcode value of the library's table (reserved, disabled, template pseudo-opcodes; via from_script_bits also bare structural and PUSHDATA opcodes) with adversarial operands (negative, 2^31 +/- 1, > 4 bytes, empty, negative zero), signature- and key-shaped pushes, initial stacks of depth 0..6, nested conditionals (random trees; straight nests to depth 150 / 300); random byte strings that parse; a Coinbase element; interpreters built from transaction inputs with/without locking script and value running CHECKSIG/CHECKMULTISIG on garbage signatures and off-curve keys, half of them behind or inside conditionals holding code separators; conditionals nested up to 120 deep through the element constructors; interpreters handed their element list directly (from_transaction_and_script_bits) with more elements than the input's locking script, and inputs whose unlocking script is one opaque Coinbase element that re-reads as several. Oracle: no panic (catch_unwind) and no process death (supervised child + journal); steps <= elements of the flattened tree + 1; stepping to the end and run() give the same Ok/Err and the same final stacks; after an Err the stacks equal the last returned state and further next() calls end the iteration (None) without changing them; a clone taken half-way finishes with the same outcome and stacks, and a copy that went through the interpreter's serde form half-way still steps to an end without panicking. Non-trivial = >= 3 executed steps or an error path reached; distinct by hash of the serialised case.".into()
     }
 
     fn assumptions() -> Vec<String> {
@@ -331,10 +334,20 @@ impl Property for C16 {
             1 => (soup(false, 1), prop::collection::vec(any::<u8>(), 0..20)).prop_map(|(before, d)| Case::Coinbase { before, data: Bytes::Lit(d) }),
             4 => (prop_oneof![1 => Just(vec![]), 3 => gs::filler(6).prop_map(|f| gs::filler_els(&f))], gs::filler(3).prop_map(|f| gs::filler_els(&f)), prop::option::weighted(0.4, gs::filler(5).prop_map(|f| gs::filler_els(&f))), sig_like().prop_map(Bytes::Lit), key_like().prop_map(Bytes::Lit), any::<u8>())
                 .prop_map(|(bits, lock, coinbase_unlock, sig, key, check)| Case::TxBits { bits, lock, coinbase_unlock, sig, key, check }),
+            1 => (1u32..120, any::<bool>()).prop_map(|(depth, via_else)| Case::ConstructedNest { depth, via_else }),
             3 => (soup(false, 1), soup(false, 2), prop::collection::vec(crate::props::c02::mutation(), 0..2)).prop_map(|(u, l, muts)| { let mut lb = gs::to_bytes(&l); crate::props::c02::apply_mutations(&mut lb, &muts); Case::RawTx { unlock: gs::to_bytes(&u), lock: lb } }),
             12 => (1u8..3, any::<u8>(), prop::option::weighted(0.85, soup(false, 2)), prop::option::weighted(0.85, gen::u64_edge()), soup(false, 1)).prop_map(|(n_in, idx, lock, value, unlock)| Case::FromTx { n_in, idx, lock, value, unlock }),
         ]
         .boxed()
+    }
+
+    fn known_death(case: &Case) -> Option<&'static str> {
+        // conditionals nested thousands deep through the element constructors: the recursive element type overflows the
+        // native stack (clone, serialisation, the interpreter's own walk); the parsers stop at 500 levels, the constructors cannot
+        match case {
+            Case::ConstructedNest { depth, .. } if *depth >= 5000 => Some("constructed-nesting-overflows-native-stack"),
+            _ => None,
+        }
     }
 
     fn check(case: &Case) -> CheckResult {
@@ -477,6 +490,20 @@ impl Property for C16 {
                     o.label_if(gs::to_tokens(&b).len() > gs::to_tokens(&l).len(), "more-elements-than-the-locking-script");
                     check_interpreter(&|| Ok(Interpreter::from_transaction_and_script_bits(tx.clone(), 0, lib_bits.clone())), &mut o)?;
                 }
+            }
+            Case::ConstructedNest { depth, via_else } => {
+                o.label("constructed-nest");
+                use bsv::OpCodes;
+                let mut cur: Vec<ScriptBit> = vec![ScriptBit::OpCode(OpCodes::OP_NOP)];
+                for _ in 0..*depth {
+                    cur = if *via_else {
+                        vec![ScriptBit::OpCode(OpCodes::OP_0), ScriptBit::If { code: OpCodes::OP_IF, pass: vec![], fail: Some(cur) }]
+                    } else {
+                        vec![ScriptBit::OpCode(OpCodes::OP_1), ScriptBit::If { code: OpCodes::OP_IF, pass: cur, fail: None }]
+                    };
+                }
+                let script = Script::from_script_bits(cur);
+                check_interpreter(&|| Ok(Interpreter::from_script(&script)), &mut o)?;
             }
             Case::RawTx { unlock, lock } => {
                 o.label("raw-bytes-from-transaction");
